@@ -6,7 +6,8 @@
    the kernel stays. *)
 From LibcoapV Require Import Base.Tactics Base.Bytes Persist.Fs Persist.FsProofs Persist.Records
   Persist.RecordsProofs Persist.Updaters Persist.Streams Persist.UpdatersProofs Persist.Discipline
-  Persist.Server Persist.ServerProofs Persist.Counter Persist.Witness.
+  Persist.Server Persist.ServerProofs Persist.Counter Persist.Witness Persist.Footprint
+  Persist.LoadersProofs Persist.Restore.
 Local Open Scope Z_scope.
 
 (* ------------------------------------------------------------------ C17_records_roundtrip *)
@@ -186,6 +187,68 @@ Proof.
   exact (proj1 ps_dyn_added_old_loses).
 Qed.
 Print Assumptions C17_update_correct_refuted_old_dyn_added.
+
+(* ------------------------------------------------------------------ C17_restart_restores *)
+(* Full statement aimed at (DESIGN.md): for every history, the server a fresh process builds from
+   the files left by a kill equals the server before the kill on the abstract state: every
+   dynamically created (observable) resource that was not deleted exists, every active
+   observation is re-established with its token and cache key.
+   Proved below: (1) coap_persist_startup on well-formed files computes exactly ps_restored_mem
+   - the application handler run once per dynamic-resource record in file order, counters set to
+   the rounded-up saved values, coap_persist_observe_add run once per observe record in file
+   order, nested counter updates included - and rewrites the observe file with exactly the
+   accepted records under their new keys; (2) every resource of the dynamic-resource file exists
+   afterwards; (3) a stored observation is accepted exactly when its endpoint matches and its
+   request names an existing observable resource, and then a subscription with its address
+   tuple and token is on that resource's list.
+   Missing for the full statement: that a subscription made for one record survives the
+   processing of the later records (needs pairwise distinct (tuple, cache key) per resource - an
+   invariant of coap_add_observer), and the invariant linking the in-memory state before the kill
+   to the files over a history; both are covered by the tie and the oracle on every run only. *)
+Theorem C17_restart_restores_partial : forall pol app req alloc cfg m0 D O C fs,
+  0 < cf_la cfg -> 0 < cf_lt cfg -> (forall live, len (alloc live) = PS_KEY) ->
+  cf_dyn cfg = true -> cf_obs cfg = true -> cf_cnt cfg = true -> cf_unknown cfg = true ->
+  Forall ps_dyn_wf D -> Forall (ps_obs_wf (cf_la cfg) (cf_lt cfg)) O -> Forall ps_cnt_wf C ->
+  (length D < cf_fuel cfg)%nat -> (length O < cf_fuel cfg)%nat ->
+  (length C + length O < cf_fuel cfg)%nat ->
+  ps_holds ps_dyn_file (ps_view (ps_boot fs) PS_DYN) D ->
+  ps_view (ps_boot fs) PS_OBS = Some (ps_obs_file O) ->
+  ps_holds ps_cnt_file (ps_view (ps_boot fs) PS_CNT) C ->
+  ps_mem_ok (ps_set_counts (ps_rounded (cf_freq cfg) C) (ps_dyn_fold (ps_dyn_step app) D m0)) ->
+  exists s',
+    ps_run pol (ps_startup app req alloc cfg m0) (ps_boot fs) =
+      (Some (ps_restored_mem app req alloc cfg m0 D O C), s') /\
+    ps_view s' PS_OBS = Some (ps_obs_file (ps_restored_obs app req alloc cfg m0 D O C)) /\
+    ps_view s' PS_DYN = ps_view (ps_boot fs) PS_DYN.
+Proof. intros. apply ps_startup_restores; assumption. Qed.
+Print Assumptions C17_restart_restores_partial.
+
+(* every dynamic resource whose record is in the file exists again (the application re-creates
+   the resource that the stored request names: deterministic handler) *)
+Theorem C17_restart_restores_resources : forall app req alloc cfg m0 D O C,
+  (forall d, In d D -> exists o, app (dy_pkt d) = Some (dy_name d, o)) ->
+  forall d, In d D -> ps_has (ps_restored_mem app req alloc cfg m0 D O C) (dy_name d).
+Proof. exact (ps_restored_has_dyn ps_pol_lazy). Qed.
+Print Assumptions C17_restart_restores_resources.
+
+Theorem C17_restart_restores_observation : forall req alloc cfg r m C name token ck rs,
+  ps_beq (ob_proto r) (cf_proto cfg) = true -> ps_beq (ob_listen r) (cf_listen cfg) = true ->
+  req (ob_pkt r) = Some (name, token, ck) -> ps_find name m = Some rs -> rs_observable rs = true ->
+  exists key, snd (fst (ps_obs_step_spec req alloc cfg r m C)) = Some key /\
+    exists rs' s, ps_find name (fst (fst (ps_obs_step_spec req alloc cfg r m C))) = Some rs' /\
+      In s (rs_subs rs') /\ su_key s = key /\ su_tuple s = ob_tuple r /\ su_token s = token.
+Proof. exact ps_obs_step_accepts. Qed.
+Print Assumptions C17_restart_restores_observation.
+
+(* the loaders skip nothing and invent nothing *)
+Theorem C17_restart_counter_load : forall pol fuel freq l s,
+  Forall ps_cnt_wf l -> (length l < fuel)%nat ->
+  ps_holds ps_cnt_file (ps_view s PS_CNT) l ->
+  exists s', ps_run pol (ps_cnt_load fuel freq) s = (Some (ps_rounded freq l), s') /\
+    ps_fs s' = ps_fs s /\ ps_next s <= ps_next s' /\
+    (forall g, g < ps_next s -> ps_hget g (ps_hs s') = ps_hget g (ps_hs s)).
+Proof. exact ps_cnt_load_correct. Qed.
+Print Assumptions C17_restart_counter_load.
 
 (* ------------------------------------------------------------------ C17_observe_monotone *)
 (* for every save_freq f > 0, every history of registrations, notifications and kills at any
